@@ -14,11 +14,15 @@ def params(tier):
         if aniso and nisot == 0:
             continue
         out.append(dict(nout=nout, nzone=nzone, ng=ngr, nisot=nisot, nreac=nreac, total=total, aniso=aniso))
+    # several outputs on ONE geometry (the layout of the shipped Mosteller files), isotope lists differing between the outputs
+    # in order and content (e.g. two burnup steps): results are stored per output and per zone, nothing may be shared per geometry
+    for nout, nzone, nisot, isovar, total in itertools.product((2, 3), (1, 2), (1, 2), ('same', 'rotated'), (True, False)):
+        out.append(dict(nout=nout, nzone=nzone, ng=2, nisot=nisot, nreac=2, total=total, aniso=False, sharedgeom=True, isovar=isovar))
     return out + user_params(tier)
 
 
 REACTIONS = ['Absorption', 'Fission']
-ISOTOPES = ['U238', 'Xe135']
+ISOTOPES = ['U238', 'Xe135', 'Pu239']
 
 
 def write_file(path, par):
@@ -35,17 +39,20 @@ def write_file(path, par):
         info = hfi.create_group('info')
         info['NOUT'] = np.array([par['nout']], dtype=np.int32)
         geo = hfi.create_group('geometry')
-        geo['NGEO'] = np.array([par['nout']], dtype=np.int32)
+        shared = bool(par.get('sharedgeom'))
+        geo['NGEO'] = np.array([1 if shared else par['nout']], dtype=np.int32)
         for iout in range(par['nout']):
             oname = f'output_{iout}'
             oinf = info.create_group(oname)
-            oinf['GEOMID'] = np.array([f'geometry_{iout}'.encode()])
+            igeo = 0 if shared else iout
+            oinf['GEOMID'] = np.array([f'geometry_{igeo}'.encode()])
             oinf['NG'] = np.array([ngr], dtype=np.int32)
-            znames = [f'zone{iout}{k}' for k in range(par['nzone'])]
-            ggr = geo.create_group(f'geometry_{iout}')
-            ggr['NZONE'] = np.array([par['nzone']], dtype=np.int32)
-            ggr['VOLUME'] = np.array([10.0 * iout + k + 0.5 for k in range(par['nzone'])], dtype=np.float32)
-            ggr['ZONENAME'] = np.array([(z + '  ').encode() for z in znames])
+            znames = [f'zone{igeo}{k}' for k in range(par['nzone'])]
+            if f'geometry_{igeo}' not in geo:
+                ggr = geo.create_group(f'geometry_{igeo}')
+                ggr['NZONE'] = np.array([par['nzone']], dtype=np.int32)
+                ggr['VOLUME'] = np.array([10.0 * igeo + k + 0.5 for k in range(par['nzone'])], dtype=np.float32)
+                ggr['ZONENAME'] = np.array([(z + '  ').encode() for z in znames])
             ogr = hfi.create_group(oname)
             if par['total']:
                 tot = ogr.create_group('totaloutput')
@@ -71,7 +78,8 @@ def write_file(path, par):
                     mac[REACTIONS[ire]] = arr(base + 5 * ire, ngr)
                     truth[(oname, zname, 'macro', REACTIONS[ire])] = arr(base + 5 * ire, ngr)
                 if par['nisot']:
-                    isos = ISOTOPES[:par['nisot']]
+                    rot = iout % len(ISOTOPES) if par.get('isovar') == 'rotated' else 0
+                    isos = (ISOTOPES[rot:] + ISOTOPES[:rot])[:par['nisot']]
                     zgr['ISOTOPE'] = np.array([(i + '   ').encode() for i in isos])
                     zgr['CONCEN'] = np.array([0.5 * (k + 1) + 0.001 * base for k in range(par['nisot'])], dtype=np.float64)
                     for kis, iso in enumerate(isos):
@@ -182,7 +190,7 @@ def check_file(rep, dirname, par):
     truth = write_file(path, par)
     local = truth.pop('__local__')
     case = {'format': 'apollo3', 'params': par}
-    tag = f"nisot={par['nisot']}|aniso={par['aniso']}|total={par['total']}"
+    tag = f"nisot={par['nisot']}|aniso={par['aniso']}|total={par['total']}" + ('|sharedgeom' if par.get('sharedgeom') else '')
     nont = par['nout'] > 1 or par['nzone'] > 1 or par['nisot'] > 1
     rep.case(nontrivial=repr(sorted(par.items())) if nont else None, outcome=('ap3', par['nout'], par['nzone'], par['nisot']))
 
@@ -220,7 +228,7 @@ def check_file(rep, dirname, par):
     if extra:
         bad('reader-extra', f'items not stored in the file: {sorted(map(str, extra))[:4]}')
     geo = brw.globals.get('geometry', {})
-    for iout in range(par['nout']):
+    for iout in range(1 if par.get('sharedgeom') else par['nout']):
         exp = {f'zone{iout}{k}': np.float32(10.0 * iout + k + 0.5) for k in range(par['nzone'])}
         if {k: np.float32(v) for k, v in geo.get(f'geometry_{iout}', {}).items()} != exp:
             bad('reader-geometry', f'geometry_{iout}: {geo.get(f"geometry_{iout}")}, stored {exp}')
